@@ -202,7 +202,7 @@ class Workload:
 
     def schedule_task(self, i: int, tier: str) -> dict:
         rng = rng_for(SEED, PROP, "sched", i)
-        n = rng.choice([2, 2, 2, 3, 3, 4])
+        n = rng.choice([2, 2, 2, 3, 3, 4, 4, 5, 6])
         scripts: list[list[dict]] = [[] for _ in range(n)]
         family = rng.choice(["pair", "pair", "same", "pool", "pool", "carrier"])
         warn_run = rng.random() < 0.06 and bool(self.warnish)
@@ -234,6 +234,11 @@ class Workload:
                 scripts[k].insert(rng.randrange(len(scripts[k]) + 1), {"op": "flood", "n": 40, "tag": f"s{i}_{k}"})
             scripts[k] = self._assign_slots(rng, scripts[k], f"t{k}_", replace=not warn_run)
             scripts[k] = self._add_faults(rng, scripts[k], 0.12, 0.06, 0.15)
+            if len(scripts[k]) >= 2 and rng.random() < 0.1:
+                # the client goes on in a fresh thread half-way through its calls
+                pos = rng.randrange(1, len(scripts[k]))
+                if not (scripts[k][pos].get("fault") or {}).get("kind") == "abort":  # keep a copy and its faulted twin together
+                    scripts[k].insert(pos, {"op": "respawn", "id": 1000 + pos})
         est = sum(20000 + 3000 * len(op.get("text", "")) + 12000 * op.get("n", 0) for s in scripts for op in s)
         # a slice of the runs pre-empts at bytecode granularity (about 5x the events per line)
         gran = "line"
@@ -244,6 +249,7 @@ class Workload:
             "engine": "schedule",
             "run": i,
             "warn_errors": warn_run,
+            "sim_clock": rng.random() < 0.5,
             "policy_hint": "uniform-hot" if warn_run and rng.random() < 0.7 else None,
             "granularity": gran,
             "threads": scripts,
@@ -293,7 +299,8 @@ class Workload:
             for op in ops:
                 if "text" in op:
                     op["warn"] = True
-        return {"engine": "history", "run": i, "ops": ops, "warn_errors": warn_run}
+        return {"engine": "history", "run": i, "ops": ops, "warn_errors": warn_run, "sim_clock": rng.random() < 0.5,
+                "fd_limit": rng.choice([None, None, 40, 64]), "gc_every": rng.choice([None, None, 1, 3, 7])}
 
 
 # ----------------------------------------------------------------------------------------------
@@ -356,17 +363,23 @@ def trace_of(task: dict, res: dict) -> dict:
     if task["engine"] == "schedule":
         return {"engine": "schedule", "threads": res["threads"], "schedule": res["segments"],
                 "cap": task.get("cap"), "granularity": res.get("granularity", task.get("granularity", "line")),
-                "warn_errors": bool(task.get("warn_errors"))}
-    return {"engine": "history", "ops": res["ops"], "warn_errors": bool(task.get("warn_errors"))}
+                "warn_errors": bool(task.get("warn_errors")), "sim_clock": bool(task.get("sim_clock")),
+                "seed_parts": task.get("seed_parts")}
+    return {"engine": "history", "ops": res["ops"], "warn_errors": bool(task.get("warn_errors")),
+            "sim_clock": bool(task.get("sim_clock")), "fd_limit": task.get("fd_limit"), "gc_every": task.get("gc_every"),
+            "run": task.get("run")}
 
 
 def run_trace(trace: dict, wall: float = 300.0):
     if trace["engine"] == "schedule":
         task = {"threads": copy.deepcopy(trace["threads"]), "schedule": trace.get("schedule") or [],
                 "cap": trace.get("cap") or 50_000_000, "wall": wall, "granularity": trace.get("granularity", "line"),
-                "engine": "schedule", "run": -1, "warn_errors": bool(trace.get("warn_errors"))}
+                "engine": "schedule", "run": -1, "warn_errors": bool(trace.get("warn_errors")),
+                "sim_clock": bool(trace.get("sim_clock")), "seed_parts": trace.get("seed_parts")}
         return kernel.run_in_child(_run_one, task, wall + 30)
-    task = {"ops": copy.deepcopy(trace["ops"]), "engine": "history", "run": -1, "warn_errors": bool(trace.get("warn_errors"))}
+    task = {"ops": copy.deepcopy(trace["ops"]), "engine": "history", "run": trace.get("run", -1),
+            "warn_errors": bool(trace.get("warn_errors")), "sim_clock": bool(trace.get("sim_clock")),
+            "fd_limit": trace.get("fd_limit"), "gc_every": trace.get("gc_every")}
     return kernel.run_in_child(_run_one, task, wall + 30)
 
 
@@ -871,7 +884,8 @@ def replay(path: str) -> int:
         print("REPRODUCED" if not same else "NOT-REPRODUCED", key)
         return 1 if not same else 0
     worlda.init_world()
-    trace = {k: data[k] for k in ("engine", "threads", "schedule", "ops", "cap", "granularity", "warn_errors") if k in data}
+    trace = {k: data[k] for k in ("engine", "threads", "schedule", "ops", "cap", "granularity", "warn_errors", "sim_clock", "seed_parts",
+                                     "fd_limit", "gc_every", "run") if k in data}
     ops = ops_of_task(trace)
     golden, _ = golden_for(ops)
     v = reproduces(trace, golden, key)
